@@ -136,6 +136,39 @@ def concrete_check(desc, what, V, W, B, uniq='R'):
       for p, off, w in offs: get(b, p).__imatmul__((~W[p]) % (1 << w))
     a._flip()
     if leaves(a) != {p: W[p] for p in leaves(a)}: return f"ilshift: after the flip a = {leaves(a)}, b was {W} at assignment time"
+  elif what == 'sequence':
+    # multi-step use: results of earlier calls are modified in place; later calls must not see that
+    comp = lambda x: [get(x, p).__imatmul__((~int(get(x, p))) % (1 << w)) for p, off, w in offs]
+    b = Bits(N, B)
+    v1 = T.from_bits(b); v2 = T.from_bits(b)
+    if v1 is v2: return "from_bits returns the same object for two calls with equal bits"
+    shared = [p for p in ids(v1) if ids(v1)[p] == ids(v2)[p]]
+    if shared: return f"two from_bits results share leaf objects {shared}"
+    comp(v1)
+    if int(v2.to_bits()) != B: return "modifying one from_bits result changed another one"
+    v3 = T.from_bits(b)
+    if int(v3.to_bits()) != B: return f"to_bits(from_bits({B:#x})) = {int(v3.to_bits()):#x} after an earlier result had been modified in place"
+    if int(b) != B: return "from_bits modified its argument"
+    t = T(); t @= b; comp(t)
+    u = T(); u @= b
+    if int(u.to_bits()) != B: return f"u @= Bits({B:#x}) gives {int(u.to_bits()):#x} after an earlier target had been modified in place"
+    t = T(); t <<= b; t._flip(); comp(t)
+    u = T(); u <<= b; u._flip()
+    if int(u.to_bits()) != B: return f"u <<= Bits({B:#x}); flip gives {int(u.to_bits()):#x} after an earlier target had been modified in place"
+    v = inst(V)
+    r1 = v.to_bits(); r1 @= (~int(r1)) % (1 << N)
+    r2 = v.to_bits()
+    if int(r2) != pack(desc, V): return "to_bits returns a shared object: modifying one result changed the next"
+    if leaves(v) != {p: V[p] for p in leaves(v)}: return "modifying the result of to_bits changed the struct"
+  elif what == 'hash':
+    v = inst(V)
+    def h(x):
+      try: return ('hash', hash(x))
+      except TypeError: return ('unhashable',)
+    same = {'clone': v.clone(), 'deepcopy': copy.deepcopy(v), 'from_bits(to_bits)': T.from_bits(v.to_bits()), 'rebuilt': inst(V)}
+    for k, x in same.items():
+      if not (x == v): return f"{k} does not compare equal to the original"
+      if h(x) != h(v): return f"{k} == original but hash differs ({h(x)[0]} vs {h(v)[0]})"
   else:
     return f"unknown sub-check {what}"
   return None
